@@ -53,7 +53,7 @@ func init() {
 		Runs: []Run{
 			{Pkg: "fasthttp", Func: "vhC30ParseUintDigits", Quick: map[string]int{"maxDigits": 20}, Thorough: map[string]int{"maxDigits": 24}},
 			{Pkg: "fasthttp", Func: "vhC30ParseUintAny", Quick: map[string]int{"maxAny": 4}, Thorough: map[string]int{"maxAny": 6}},
-			{Pkg: "fasthttp", Func: "vhC30AppendParse", Quick: map[string]int{"appendBits": 14}, Thorough: map[string]int{"appendBits": 20}},
+			{Pkg: "fasthttp", Func: "vhC30AppendParse", Quick: map[string]int{"appendBits": 14}, Thorough: map[string]int{"appendBits": 16}},
 			{Pkg: "fasthttp", Func: "vhC30HexRoundTrip"},
 			{Pkg: "fasthttp", Func: "vhC30HexLen"},
 		},
